@@ -914,7 +914,13 @@ class MatrixProduct:
         else:
             assert self.qnidx == self.site_num-1
 
-        for idx in self.iter_idx_list(full=False, stop_idx=stop_idx):
+        idx_list = self.iter_idx_list(full=False, stop_idx=stop_idx)
+        if len(idx_list) == 0:
+            # nothing to sweep: a one-site chain (trivially a complete sweep) or `stop_idx` is the current centre
+            if stop_idx is None:
+                self._switch_direction()
+            return self
+        for idx in idx_list:
             self._push_cano(idx)
         # can't iter to idx == 0 or idx == self.site_num - 1
         if (not self.to_right and idx == 1) or (self.to_right and idx == self.site_num - 2):
